@@ -169,7 +169,7 @@ Fixpoint contract_m_from (fin : N -> bool) (w : world) (tr : list env_ev) : bool
   | [] => true
   | e :: r =>
     (match e with
-     | EAppend b => if fin (w_state w) then rlen (w_output w ++ b) <=? w_size w else true
+     | EAppend b => if fin (w_state w) then rlen (w_output w) + rlen b <=? w_size w else true
      | ESetStatus st sz =>
        if fin st
        then (rlen (w_output w) <=? sz) && (has_file w || (sz =? 0)) &&
@@ -236,9 +236,23 @@ Definition pat (off len : N) : bytes :=
 (* the first 256 KiB of the pattern as a constant (vm_compute evaluates a constant once per run),
    and slices of it; what the case files use *)
 Definition pat_table : bytes := pat 0 262144.
+(* beyond the table: the pattern repeats every 251 * 256 = 64256 bytes (7 * 64256 is a multiple
+   of 256 and (i + 64256) / 251 = i / 251 + 256), so any stretch of it is the rest of one period,
+   whole periods and the beginning of one — megabytes of output cost a list copy instead of
+   arithmetic per byte.  Proofs/Results.v pat_cyc_samples compares with [pat]; every case the
+   harness writes has been compared with the real bytes before. *)
+Definition pat_period : bytes := firstn (N.to_nat 64256) pat_table.
+Fixpoint cyc_fill (k : nat) (tail : bytes) : bytes :=
+  match k with O => tail | S k' => pat_period ++ cyc_fill k' tail end.
+Definition pat_cyc (off len : N) : bytes :=
+  let r := off mod 64256 in
+  let head := skipn (N.to_nat r) pat_period in
+  let hl := 64256 - r in
+  if len <=? hl then firstn (N.to_nat len) head
+  else head ++ cyc_fill (N.to_nat ((len - hl) / 64256)) (firstn (N.to_nat ((len - hl) mod 64256)) pat_period).
 Definition patc (off len : N) : bytes :=
   if off + len <=? 262144 then firstn (N.to_nat len) (skipn (N.to_nat off) pat_table)
-  else pat off len.
+  else pat_cyc off len.
 
 (* polls that certainly exhaust the reader after one more event, given that it was exhausted
    before: status check, one read per 64 KiB, the read that hits end-of-file, status check.
@@ -276,7 +290,8 @@ Definition results_check (c : results_case) : bool :=
     (if ended then fin && beq_bytes (concat cs) got
      else negb fin && is_prefix got (concat cs))
   | RMCase start pre post got ended =>
-    let k := polls_for (pre ++ post) in
+    (* what was there when the client asked is part of what it got: that many reads suffice *)
+    let k := (N.to_nat (rlen got / 65536) + 4)%nat in
     let tr := pre ++ repeat (EPoll 65536) k ++ eager post in
     let '(cs, fin) := results_run start tr in
     contract_m (pre ++ post) &&
